@@ -197,7 +197,7 @@ pub fn check(st: &mut Stats, c: &C) {
 pub fn run(ctx: &Ctx, st: &mut Stats) {
     let lim = YM_LIM as i64;
     match ctx.tier {
-        Tier::Thorough | Tier::Quick => {
+        Tier::Thorough | Tier::Quick if !ctx.light => {
             ctx.par(st, "ym/all-values", true, -lim, lim + 1, |st, m, _| {
                 st.eval(&C::ab(K::Ym, m, 0), check);
             });
